@@ -3,6 +3,8 @@ import Hive.Proofs.SerixJsonOrder
 import Hive.Proofs.SerixJsonDeep
 import Hive.Proofs.SerixJsonCanon
 import Hive.Proofs.SerixJsonCanonId
+import Hive.Spec.SerixJsonSource
+import Hive.Gen.C01b_Facts
 /-!
 # C01 (JSON/map form) — MapEncode/JSONEncode then MapDecode/JSONDecode round-trips every value the form can express
 
@@ -269,5 +271,79 @@ example : ∃ j, mapEncode exFc ⟨true⟩ exBasic exVal = .ok j ∧ mapDecode e
       pow2, checkLen, nb, Except.map, bind, Except.bind]
   obtain ⟨j, hj⟩ := h
   exact ⟨j, hj, C01_json_roundtrip exFc ⟨true⟩ exBasic exVal j (by decide) (by decide) hj⟩
+
+end Hive.SerixJson
+
+/-! ### the code the model was written against (regenerated tie)
+
+`Hive.Gen.C01bFacts` is regenerated from the working tree by `harness/c01b/extract` on every run of the check;
+`Hive.SerixJson.Source` (Hive/Spec/SerixJsonSource.lean) is the frozen copy the model was written and validated
+against.  Each obligation is closed by evaluation; a changed condition, statement order, helper or constant in
+the anchored Go code breaks it. -/
+namespace Hive.SerixJson
+
+theorem C01_json_const_keyType : Hive.Gen.C01bFacts.const_keyType = Source.const_keyType := by decide
+theorem C01_json_const_keyDefaultSliceArray : Hive.Gen.C01bFacts.const_keyDefaultSliceArray = Source.const_keyDefaultSliceArray := by decide
+theorem C01_json_const_MaxNanoTimestampInt64Seconds : Hive.Gen.C01bFacts.const_MaxNanoTimestampInt64Seconds = Source.const_MaxNanoTimestampInt64Seconds := by decide
+theorem C01_json_source_mapEncode : Hive.Gen.C01bFacts.src_mapEncode = Source.src_mapEncode := by decide
+theorem C01_json_source_mapEncodeBasedOnType : Hive.Gen.C01bFacts.src_mapEncodeBasedOnType = Source.src_mapEncodeBasedOnType := by decide
+theorem C01_json_source_mapEncodeInterface : Hive.Gen.C01bFacts.src_mapEncodeInterface = Source.src_mapEncodeInterface := by decide
+theorem C01_json_source_mapEncodeStruct : Hive.Gen.C01bFacts.src_mapEncodeStruct = Source.src_mapEncodeStruct := by decide
+theorem C01_json_source_mapEncodeStructFields : Hive.Gen.C01bFacts.src_mapEncodeStructFields = Source.src_mapEncodeStructFields := by decide
+theorem C01_json_source_mapEncodeSlice : Hive.Gen.C01bFacts.src_mapEncodeSlice = Source.src_mapEncodeSlice := by decide
+theorem C01_json_source_mapEncodeMapKVPair : Hive.Gen.C01bFacts.src_mapEncodeMapKVPair = Source.src_mapEncodeMapKVPair := by decide
+theorem C01_json_source_mapEncodeMap : Hive.Gen.C01bFacts.src_mapEncodeMap = Source.src_mapEncodeMap := by decide
+theorem C01_json_source_isValueEmpty : Hive.Gen.C01bFacts.src_isValueEmpty = Source.src_isValueEmpty := by decide
+set_option maxRecDepth 8192 in
+theorem C01_json_kinds_mapEncodeBasedOnType : Hive.Gen.C01bFacts.kinds_mapEncodeBasedOnType = Source.kinds_mapEncodeBasedOnType := by decide
+theorem C01_json_source_mapDecode : Hive.Gen.C01bFacts.src_mapDecode = Source.src_mapDecode := by decide
+set_option maxRecDepth 8192 in
+theorem C01_json_source_mapDecodeBasedOnType : Hive.Gen.C01bFacts.src_mapDecodeBasedOnType = Source.src_mapDecodeBasedOnType := by decide
+theorem C01_json_source_float64NumParser : Hive.Gen.C01bFacts.src_float64NumParser = Source.src_float64NumParser := by decide
+theorem C01_json_source_strNumParser : Hive.Gen.C01bFacts.src_strNumParser = Source.src_strNumParser := by decide
+theorem C01_json_source_mapDecodeNum : Hive.Gen.C01bFacts.src_mapDecodeNum = Source.src_mapDecodeNum := by decide
+theorem C01_json_source_mapDecodeFloat : Hive.Gen.C01bFacts.src_mapDecodeFloat = Source.src_mapDecodeFloat := by decide
+theorem C01_json_source_mapDecodeInterface : Hive.Gen.C01bFacts.src_mapDecodeInterface = Source.src_mapDecodeInterface := by decide
+theorem C01_json_source_mapDecodeStruct : Hive.Gen.C01bFacts.src_mapDecodeStruct = Source.src_mapDecodeStruct := by decide
+theorem C01_json_source_mapDecodeStructFields : Hive.Gen.C01bFacts.src_mapDecodeStructFields = Source.src_mapDecodeStructFields := by decide
+theorem C01_json_source_mapDecodeSlice : Hive.Gen.C01bFacts.src_mapDecodeSlice = Source.src_mapDecodeSlice := by decide
+theorem C01_json_source_mapDecodeBytes : Hive.Gen.C01bFacts.src_mapDecodeBytes = Source.src_mapDecodeBytes := by decide
+theorem C01_json_source_mapDecodeArray : Hive.Gen.C01bFacts.src_mapDecodeArray = Source.src_mapDecodeArray := by decide
+theorem C01_json_source_mapDecodeMap : Hive.Gen.C01bFacts.src_mapDecodeMap = Source.src_mapDecodeMap := by decide
+set_option maxRecDepth 8192 in
+theorem C01_json_kinds_mapDecodeBasedOnType : Hive.Gen.C01bFacts.kinds_mapDecodeBasedOnType = Source.kinds_mapDecodeBasedOnType := by decide
+theorem C01_json_source_EncodeHex : Hive.Gen.C01bFacts.src_EncodeHex = Source.src_EncodeHex := by decide
+theorem C01_json_source_DecodeHex : Hive.Gen.C01bFacts.src_DecodeHex = Source.src_DecodeHex := by decide
+theorem C01_json_source_EncodeUint256 : Hive.Gen.C01bFacts.src_EncodeUint256 = Source.src_EncodeUint256 := by decide
+theorem C01_json_source_DecodeUint256 : Hive.Gen.C01bFacts.src_DecodeUint256 = Source.src_DecodeUint256 := by decide
+theorem C01_json_source_sliceFromArray : Hive.Gen.C01bFacts.src_sliceFromArray = Source.src_sliceFromArray := by decide
+theorem C01_json_source_fillArrayFromSlice : Hive.Gen.C01bFacts.src_fillArrayFromSlice = Source.src_fillArrayFromSlice := by decide
+theorem C01_json_source_FieldKeyString : Hive.Gen.C01bFacts.src_FieldKeyString = Source.src_FieldKeyString := by decide
+theorem C01_json_source_JSONEncode : Hive.Gen.C01bFacts.src_JSONEncode = Source.src_JSONEncode := by decide
+theorem C01_json_source_MapEncode : Hive.Gen.C01bFacts.src_MapEncode = Source.src_MapEncode := by decide
+theorem C01_json_source_JSONDecode : Hive.Gen.C01bFacts.src_JSONDecode = Source.src_JSONDecode := by decide
+theorem C01_json_source_MapDecode : Hive.Gen.C01bFacts.src_MapDecode = Source.src_MapDecode := by decide
+theorem C01_json_source_TimeToUint64 : Hive.Gen.C01bFacts.src_TimeToUint64 = Source.src_TimeToUint64 := by decide
+
+/-- the member name under which the model writes and checks object codes is the code's `keyType`. -/
+theorem C01_json_model_type_member (c : Nat) :
+    typeMember (some c) = [(Hive.Gen.C01bFacts.const_keyType, .num c)] ∧
+      typeKeys (some c) = [Hive.Gen.C01bFacts.const_keyType] := by
+  constructor <;> rfl
+
+/-- the saturation value of the model's `encTime` is `math.MaxInt64`, reached from the first instant whose second
+count exceeds `MaxNanoTimestampInt64Seconds = math.MaxInt64 / 10^9` or whose nanosecond count overflows within that
+last second (`serializer.TimeToUint64`, pinned by `C01_json_source_TimeToUint64`). -/
+theorem C01_json_model_time_saturation (n : Int) :
+    (maxNano : Int) = 2 ^ 63 - 1 ∧ (maxNano / 1000000000 = 9223372036) ∧
+      (n / 1000000000 > 9223372036 → pow2 63 ≤ n) ∧
+      (n / 1000000000 = 9223372036 → (pow2 63 ≤ n ↔ n - 2 ^ 64 < 0 ∧ ¬ n < 2 ^ 63)) := by
+  refine ⟨by decide, by decide, ?_, ?_⟩
+  · intro h
+    rw [pow2_63]
+    omega
+  · intro h
+    rw [pow2_63]
+    omega
 
 end Hive.SerixJson
